@@ -39,7 +39,7 @@ from amaranth import Elaboratable, Module, Signal, Value, signed
 from amaranth.hdl import Fragment
 
 from ..harness import Built
-from ..seq import Unroll
+from ..seq import Unroll, cosim
 from ..util import zx
 from ..pysym import Engine, SInt, SBool, Unsupported, ite, model_int
 
@@ -62,12 +62,15 @@ OUTSIDE = ["the JSON text layer (json.dumps / json.loads, replaced by a structur
            "raw values of Enum-typed fields outside the member set (Enum(value) raises ValueError), records whose value count differs from the schema",
            "the Verilog text and simulators reading it (verilog.convert / cocotb); the name map is taken from amaranth.back.rtlil for the same design",
            "EvLogEnabledKey left disabled (emit is then a no-op by documentation), stability of EventConsumer's sort among equal cycles",
-           "transactron.cmd.evlog pretty printer"]
+           "transactron.cmd.evlog pretty printer",
+           "event fields that are bare, undriven top-level input ports of the design handed to generate_verilog (VerilogDebugWrapper.to_signal drives every undriven "
+           "field Signal with its reset value; every field of the harness designs is a driven signal, an expression or a constant)"]
 ASSUMES = ["'context active' of a site inside a transaction / method body = the body's own `run` signal of that cycle & the enclosing m.If/m.Switch conditions",
            "capture stub: sim.tick().sample(v...) yields per cycle (clk=True, rst=False, one value per sampled Value in order); the same Value object sampled "
            "twice gets the same value; values range over the full range of the Value's shape (ticks: 64-bit unsigned)",
            "sampler stub: HandleResolver maps a handle of the real GeneratedEvLog back to the signal of the debug wrapper via the (injective) RTLIL name map; that "
-           "signal reads the proxy of the EmittedEvent Value it mirrors and the packed vector reads sum(trigger_i != 0) << i -- both equalities are obligations of group (a)",
+           "signal reads the proxy of the EmittedEvent Value it mirrors and the packed vector reads sum(trigger_i != 0) << i -- both equalities are obligations of group (a); "
+           "the readers return a signed field in the same (signed) interpretation as amaranth.sim samples it",
            "coroutines are driven with send(None); a suspension of the stubbed awaitables would be reported as unsupported",
            "json stub: dumps(obj) returns a fresh token (no whitespace / newline) standing for a structural copy of obj with tuples turned into lists; loads(text) "
            "returns a copy of the structure behind text.strip(); installed as the module global `json` of transactron.evlog.log",
@@ -446,7 +449,8 @@ def _capture_configs(tier, seed):
         sites = [_site(rng, rng.choice(BODIES), rng.choice(list(CTXS)), rng.choice(["emit", "emit", "top"]), ev) for ev in evs]
         if n >= 2 and sites[0]["ev"] == sites[1]["ev"] == "EvC":
             sites[1].update(share_fields_with=0, body=sites[0]["body"], fields=sites[0]["fields"])  # the same Signal objects feed two sites (sampled twice)
-        out.append(dict(group="capture", sites=sites, K=K))
+        c = dict(group="capture", sites=sites, K=K)
+        out += split_cfgs(c) if n * K >= 12 else [c]  # 4096 histories: four tasks of 1024
     return out
 
 
@@ -482,7 +486,10 @@ def _consumer_configs(tier, seed):
 def configs(tier, seed):
     # the heaviest configurations first (one configuration per worker task)
     cap = sorted(_capture_configs(tier, seed), key=lambda c: -len(c["sites"]) * c["K"])
-    return cap + _decode_configs(tier, seed) + _consumer_configs(tier, seed) + _trig_configs(tier, seed)
+    trig = _trig_configs(tier, seed)
+    for c in trig[:3]:
+        c["cosim"] = True  # random traces through amaranth.sim and through the encoding
+    return cap + _decode_configs(tier, seed) + _consumer_configs(tier, seed) + trig
 
 
 # ---------------------------------------------------------------------------------------------------------------------
@@ -549,6 +556,12 @@ def _run_trig(cfg, ctx):
     u = Unroll(b, free_init=True)
     o = u.cycle()
     ctx.frames += 1
+    if cfg.get("cosim"):
+        pts, mism = cosim(b, 8, ctx.seed)
+        ctx.cosim_points += pts
+        ctx.cosim_traces += 1
+        if mism:
+            ctx.errors.append(f"cosim mismatch encoder vs pysim in cfg {cfg}: {mism[:4]}")
     bad = _structure_facts(b, cfg)
     ctx._record(f"registration order, schema_from_records and GeneratedEvLog locations of {n} site(s)", "obligation", "sat" if bad else "unsat", 0.0)
     if bad:
@@ -730,7 +743,8 @@ def model_env(m, names):
 class FastEngine(Engine):
     """pysym Engine with a sound syntactic front-end for `decide`: the atoms already decided on this path (the literals of the path
     condition) are substituted by their truth values; if the condition simplifies to a constant it is implied (or refuted) by the
-    path condition and no solver call / fork is needed.  Deterministic in the path condition, so re-execution stays aligned."""
+    path condition and no solver call is needed; it is recorded as a decision with a single feasible outcome, exactly as the base
+    class records a solver-decided one, so the re-execution of a decision prefix stays aligned."""
 
     _cpc, _cn, _csubs = None, 0, None
     _SKIP = (z3.Z3_OP_SLEQ, z3.Z3_OP_SGEQ, z3.Z3_OP_ULEQ, z3.Z3_OP_UGEQ)  # range constraints of the inputs: never sub-terms of a condition
@@ -749,11 +763,16 @@ class FastEngine(Engine):
 
     def decide(self, cond):
         cond = z3.simplify(cond)
-        if not (z3.is_true(cond) or z3.is_false(cond)) and self.pc:  # also while a decision prefix is replayed: keeps the positions aligned
-            subs = self._atoms()
-            c2 = z3.simplify(z3.substitute(cond, *subs)) if subs else cond
-            if z3.is_true(c2) or z3.is_false(c2):
-                return z3.is_true(c2)
+        if z3.is_true(cond) or z3.is_false(cond) or self._pos < len(self._pending) or not self.pc:
+            return super().decide(cond)  # constants, replay of the decision prefix (implied decisions are part of it), first decision
+        subs = self._atoms()
+        c2 = z3.simplify(z3.substitute(cond, *subs)) if subs else cond
+        if z3.is_true(c2) or z3.is_false(c2):
+            d = z3.is_true(c2)
+            self._pending.append([d, False])  # recorded like a solver-decided fork with one feasible outcome
+            self._pos += 1
+            self.pc.append(cond if d else z3.Not(cond))
+            return d
         return super().decide(cond)
 
 
@@ -819,6 +838,37 @@ def explore(ctx, label, body, per_path=None, max_paths=6000):
     note(ctx, "pysym_feasibility_queries", eng.queries)
     ctx.notes["pysym_explore_and_prove_s"] = round(ctx.notes.get("pysym_explore_and_prove_s", 0) + time.time() - t0, 2)
     return eng, paths, complete
+
+
+def split_cfgs(cfg, names=("c0_v1", "c1_v1")):
+    """splits one large configuration into 2^len(names) ones by fixing whether the named sampled value (the first site's trigger in
+    cycles 0 and 1) is zero; the cases are exhaustive by construction and every part proves coverage of its own sub-domain."""
+    out = []
+    for bits in itertools.product((0, 1), repeat=len(names)):
+        out.append(dict(cfg, split=dict(zip(names, bits))))
+    return out
+
+
+def split_mk(eng, names, split):
+    def mk(name, lo, hi):
+        names[name] = (lo, hi)
+        v = eng.int(name, lo, hi)
+        if name in split:
+            eng.assume(v.e != 0 if split[name] else v.e == 0)
+        return v
+
+    return mk
+
+
+def split_dom(split):
+    return [(z3.BitVec(n, W) != 0) if b else (z3.BitVec(n, W) == 0) for n, b in split.items()]
+
+
+def split_fix(env, split, names):
+    for n, b in split.items():
+        if n in env and (env[n] != 0) != bool(b):
+            env[n] = (1 if names[n][1] >= 1 else names[n][0]) if b else 0
+    return env
 
 
 def dom_of(names):
@@ -915,17 +965,13 @@ class CaptureHarness:
 def _run_capture(cfg, ctx):
     h = CaptureHarness(cfg, ctx)
     n, K = len(cfg["sites"]), cfg["K"]
-    label = f"capture {n} site(s) x {K} cycle(s)"
+    split = cfg.get("split", {})
+    label = f"capture {n} site(s) x {K} cycle(s)" + (f" [part {split}]" if split else "")
     dom_box = {}
 
     def body(eng):
         names = {}
-
-        def mk(name, lo, hi):
-            names[name] = (lo, hi)
-            return eng.int(name, lo, hi)
-
-        r = h.run(mk)
+        r = h.run(split_mk(eng, names, split))
         dom_box["names"] = names
         return r
 
@@ -952,12 +998,14 @@ def _run_capture(cfg, ctx):
                         p.pc, goal, replay) is not False
 
     eng, paths, complete = explore(ctx, label, body, per_path)
+    ctx.frames += K * len(paths)  # symbolic cycles of the stub simulator
+    ctx.steps += K * len(paths)
     names = dom_box.get("names", {})
-    dom = dom_of(names)
+    dom = dom_of(names) + split_dom(split)
     if not complete:
         return
     coverage(ctx, label, dom, paths)
-    if n:
+    if n and not split:
         for wn, ok in (("some explored history records every (cycle, site)", any(len(p.result["raw"]) == n * K for p in paths)),
                        ("some explored history records nothing", any(len(p.result["raw"]) == 0 for p in paths))):
             ctx._record(f"{label}: {wn}", "witness", "sat" if ok else "unsat", 0.0)
@@ -975,6 +1023,7 @@ def _run_capture(cfg, ctx):
     rng = random.Random(ctx.seed * 31 + ctx.index)
     for _ in range(6 if names else 0):
         env = {nm: (rng.choice([lo, hi, 0 if lo <= 0 <= hi else lo]) if rng.random() < 0.3 else rng.randint(lo, hi)) for nm, (lo, hi) in names.items()}
+        env = split_fix(env, split, names)
         exp, got, got_p, got_s = concrete(env)
         try:
             sym = eval_paths(paths, env, lambda p: [(c, s, list(v)) for c, s, v in p.result["raw"]])
